@@ -239,7 +239,8 @@ def gen_history(r, h, nmax=12):
         pts = [[r.uniform(1.0, h["naxis1"]), r.uniform(1.0, h["naxis2"])] for _ in range(max(npt, 1))]
         if kind == "s2i":
             sky = [list(ref_sky(h, p[0], p[1])) for p in pts]
-            ops.append({"op": "s2i", "arr": npt > 0, "pts": sky, "distort": r.random() < 0.7, "find": r.random() < 0.5})
+            ops.append({"op": "s2i", "arr": npt > 0, "pts": sky, "distort": r.random() < 0.7, "find": r.random() < 0.5,
+                        "xtol": r.choice([None, None, 1e-10, 1e-12, 1e-6, 0.0])})
         else:
             ops.append({"op": kind, "arr": npt > 0, "pts": pts, "distort": r.random() < 0.7})
     return ops
@@ -477,6 +478,7 @@ def gen_history_orders(r, h):
     ops = [{"op": "i2s", "arr": arr, "pts": P, "distort": True},
            {"op": "i2s", "arr": arr, "pts": P, "distort": False},
            {"op": "s2i", "arr": arr, "pts": S, "distort": True, "find": True},
+           {"op": "s2i", "arr": arr, "pts": S, "distort": True, "find": True, "xtol": r.choice([1e-10, 1e-12, 1e-14, 1e-5])},
            {"op": "s2i", "arr": arr, "pts": S, "distort": False, "find": True},
            {"op": "s2i", "arr": arr, "pts": S, "distort": True, "find": False},
            {"op": "s2i", "arr": arr, "pts": S, "distort": False, "find": False},
@@ -486,3 +488,88 @@ def gen_history_orders(r, h):
         ops.append({"op": "inv", "arr": False, "pts": [], "distort": True})
     r.shuffle(ops)
     return ops + [dict(ops[0]), dict(ops[1])]
+
+
+# ----------------------------------------------------------------------------
+# wave 3: sequences over several objects in one process, xtol values, special points
+# ----------------------------------------------------------------------------
+
+XTOLS = [0.0, 1e-14, 1e-12, 0.0, 1e-10, 1e-14, 1e-9, 0.0, 1e-6, 1e-4]      # sky2image(find=True, xtol=...)
+
+
+def lookalikes(r, kind0="tpv"):
+    """headers that share everything a coarse cache key might use (NAXIS, CRPIX, CRVAL, CD, key names) but differ
+    in what matters: [TPV, the same without PV keys (plain TAN), the same PV keys with other values, the same linear
+    part with SIP coefficients, the same with the CD matrix rotated]"""
+    h0 = gen_header(r, kind0, r.choice(CRVAL_FAMILIES), "inside", nax=r.choice([(1024, 1024), (512, 300), (2048, 4096)]))
+    lin = {k: v for k, v in h0.items() if not k.startswith("pv")}
+    h_tan = dict(lin, ctype1="RA---TAN", ctype2="DEC--TAN")
+    h_pv2 = dict(h0)
+    for k in h0:
+        if k.startswith("pv") and k.split("_")[1] not in ("1",):
+            h_pv2[k] = h0[k] * r.uniform(0.3, 0.7)
+    hs = gen_header(r, "sip-noinv", "sphere", "inside", nax=(h0["naxis1"], h0["naxis2"]))
+    h_sip = dict(lin, ctype1="RA---TAN-SIP", ctype2="DEC--TAN-SIP")
+    for k, v in hs.items():
+        if k.split("_")[0] in ("a", "b"):
+            h_sip[k] = v
+    h_cd = dict(h0, cd1_1=-h0["cd1_2"], cd1_2=h0["cd1_1"], cd2_1=-h0["cd2_2"], cd2_2=h0["cd2_1"])
+    return [h0, h_tan, h_pv2, h_sip, h_cd]
+
+
+def gen_sequence(r, nsteps=14):
+    """-> {"headers", "order", "dictreuse", "steps"}: several objects built in ONE process (in `order`; with dictreuse
+    from one dict object that is changed in place between the constructions), then calls interleaved over the
+    objects.  Array arguments live in a few shared buffers that are overwritten in place between calls (same object,
+    new contents; contents with equal length and equal first / last elements), scalars are python floats."""
+    hs = lookalikes(r)
+    hs = [hs[0], hs[1], hs[r.choice([2, 3, 4])]]      # TPV, its plain-TAN look-alike, one more (each costs a fresh process)
+    r_ = list(range(len(hs)))
+    order = r_[:]
+    r.shuffle(order)
+    if r.random() < 0.5:                   # the distorted object first, the plain TAN look-alike right after it
+        order = [0, 1] + [i for i in order if i not in (0, 1)]
+    steps = []
+    first = {}
+    for _ in range(nsteps):
+        i = r.choice(r_)
+        h = hs[i]
+        op = r.choice(["i2s", "i2s", "s2i", "s2i", "jac"])
+        arr = r.random() < 0.6
+        n = 4 if arr else 1
+        pts = [[r.uniform(1.0, h["naxis1"]), r.uniform(1.0, h["naxis2"])] for _ in range(n)]
+        key = "px" if op != "s2i" else "sky"
+        if op == "s2i":
+            pts = [list(ref_sky(h, p[0], p[1])) for p in pts]
+        if arr and key in first and r.random() < 0.5:      # equal length, equal first and last element
+            pts[0], pts[-1] = list(first[key][0]), list(first[key][-1])
+        if arr:
+            first.setdefault(key, pts)
+        st = {"obj": i, "op": op, "arr": arr, "pts": pts, "distort": r.random() < 0.7, "find": r.random() < 0.6,
+              "xtol": r.choice([None, None, 1e-10, 1e-12, 1e-6]), "buf": "%s%d" % (key, r.randrange(2))}
+        if op == "jac":
+            st["step"] = r.choice([1.0, 0.5, 2.0])
+        steps.append(st)
+    return {"headers": hs, "order": order, "dictreuse": r.random() < 0.5, "steps": steps}
+
+
+def gen_special(r):
+    """exact special values: CRVAL at 0.0 / -0.0 (both axes), CRPIX exactly 0.0, pixels exactly 0.0, exactly CRPIX,
+    coefficient sets that are present but neutral (TPV identity: PVi_1 = 1.0 and explicit 0.0 elsewhere; SIP with only
+    zero coefficients)"""
+    kind = r.choice(["tan", "tpv-identity", "sip-zero", "tpv", "sip"])
+    base = {"tpv-identity": "tan", "sip-zero": "sip-noinv"}.get(kind, kind)
+    h = gen_header(r, base, "sphere", "inside", nax=(1024, 1024))
+    h["crval1"] = r.choice([0.0, -0.0, 180.0])
+    h["crval2"] = r.choice([0.0, -0.0])
+    h["crpix1"], h["crpix2"] = r.choice([(0.0, 0.0), (0.0, 512.0), (512.0, -0.0)])
+    if kind == "tpv-identity":
+        h["ctype1"], h["ctype2"] = "RA---TPV", "DEC--TPV"
+        for ax in (1, 2):
+            for k in SUPPORTED_PV:
+                h["pv%d_%d" % (ax, k)] = 1.0 if k == 1 else 0.0
+    if kind == "sip-zero":
+        for k in [k for k in h if k.split("_")[0] in ("a", "b") and not k.endswith("order")]:
+            h[k] = 0.0
+    pts = [[0.0, 0.0], [h["crpix1"], h["crpix2"]], [1.0, 1.0], [0.0, 700.5], [-0.0, 3.0], [512.0, 512.0], [1024.0, 1024.0]]
+    return h, "%s/special/inside" % kind, pts
